@@ -194,6 +194,7 @@ let rec ps (x : tok tree) : string =
     (match o with
      | TArr _ -> "(arrayidx " ^ ps a ^ " " ^ spec_selector o ^ ")"
      | TDotSym _ -> "(hashidx " ^ ps a ^ " " ^ print_tok o ^ ")"
+     | TSym (_, false) when Doc.is_lowpost o -> "(" ^ print_tok o ^ " " ^ ps a ^ ")"
      | _ -> raise Silent)
   | _ -> raise Silent
 and spec_selector (o : tok) : string =
@@ -206,11 +207,23 @@ and spec_selector (o : tok) : string =
     "[" ^ String.concat " " parts ^ "]"
   | None -> raise Silent
 
+(* go-style for statements: the specification is the lowering of Model/PrattFor.v (guards read
+   from the source, proved index-safe) printed with the documented expansion templates
+   (print_for: := defines, = assigns); a malformed header must give an error *)
+let spec_for (ts : tok list) : string =
+  match m_parse_block !cur_ents kk led_err ts with
+  | RUnsup ->
+    (match parse_block_for !cur_ents kk for_consts led_err is_body body_empty ts with
+     | ROk _ -> for_obs ts
+     | RErr | RCrash -> "ERR"
+     | _ -> "-")
+  | _ -> "-"
+
 let spec_obs (ts : tok list) : string =
   try
     match Doc.block ts with
     | Some xs -> String.concat " ;; " (List.map ps xs)
-    | None -> "-"
+    | None -> (try spec_for ts with Outcome _ -> "-")
   with Silent -> "-"
 
 let () =
